@@ -379,6 +379,10 @@ package proxy
 //@   sink [C13] provider_is_the_default_when_none_stated: newProvider requires upstreamConfig.ProviderSlug == "" ==> $arg3.DefaultConfig.ProviderSlug == config.UpstreamConfigs.DefaultConfig.ProviderSlug
 //@   sink [C13] backend_is_the_upstreams_own: NewUpstreamReverseProxy requires $arg0 == upstreamConfig
 //@   sink [C13] policy_is_the_upstreams_own: SetUpstreamConfig requires $arg0 == upstreamConfig
+//@   sink [C11 C01] address_rule_from_this_upstream: NewEmailAddressValidator requires arrof($arg0) == arrof(upstreamConfig.AllowedEmailAddresses) && len($arg0) == len(upstreamConfig.AllowedEmailAddresses)
+//@   sink [C11 C01] domain_rule_from_this_upstream: NewEmailDomainValidator requires arrof($arg0) == arrof(upstreamConfig.AllowedEmailDomains) && len($arg0) == len(upstreamConfig.AllowedEmailDomains)
+//@   sink [C11 C01] group_rule_from_this_upstream: NewEmailGroupValidator requires $arg0 == provider && arrof($arg1) == arrof(upstreamConfig.AllowedGroups) && len($arg1) == len(upstreamConfig.AllowedGroups)
+//@   sink [C11 C01] one_validator_per_configured_rule: SetValidators requires len($arg0) == before(@SetProvider#1, (len(upstreamConfig.AllowedEmailAddresses) != 0 ? 1 : 0) + (len(upstreamConfig.AllowedEmailDomains) != 0 ? 1 : 0) + (len(upstreamConfig.AllowedGroups) != 0 ? 1 : 0))
 // (`route` is the type-switch variable: a *SimpleRoute in the arm that registers statically, a *RewriteRoute in the other)
 //@   sink [C13] static_table_only_for_simple_routes: HandleStatic requires $arg1 == before(@Handler#1, route.FromURL.Host)
 //@   sink [C13] rewrite_routes_in_the_ordered_table: HandleRegexp requires $arg1 == before(@Handler#2, route.FromRegex)
